@@ -372,7 +372,377 @@ C12_NoBuyExpired_Step ==
 \* no open order is already expired with respect to the current block time
 C12_NoneExpired == \A o \in st.orders : ~o.exp.set \/ o.exp.t > st.now
 
+\* an order carries exactly the expiration its seller asked for: a new order gets
+\* the expiration of its request entry, an update without a new expiration keeps
+\* the old one, and no other step changes an expiration (so an order submitted
+\* without expiration can never be removed by block processing)
+C12_ExpirationAsRequested_Step ==
+  /\ EvIs("Sell") =>
+       /\ "sell_order_ids" \in DOMAIN ev'.resp
+       /\ Len(ev'.resp.sell_order_ids) = Len(ev'.m.orders)
+       /\ \A i \in DOMAIN ev'.m.orders :
+            /\ HasOrder(st', ev'.resp.sell_order_ids[i])
+            /\ OrderById(st', ev'.resp.sell_order_ids[i]).exp = ev'.m.orders[i].exp
+  /\ \A o \in st'.orders :
+       HasOrder(st, o.id) =>
+         LET old == OrderById(st, o.id)
+             ups == IF EvIs("UpdateSellOrders")
+                    THEN {i \in DOMAIN ev'.m.updates : ev'.m.updates[i].id = o.id /\ ev'.m.updates[i].exp.set}
+                    ELSE {}
+         IN IF ups = {} THEN o.exp = old.exp
+            ELSE \E i \in ups : o.exp = ev'.m.updates[i].exp
+
 C12_Expiry_Prop       == [][C12_Expiry_Step]_vars
+C12_ExpirationAsRequested_Prop == [][C12_ExpirationAsRequested_Step]_vars
 C12_NoBuyExpired_Prop == [][C12_NoBuyExpired_Step]_vars
+
+
+\* ================================================================== C08
+\* Only the required role holder can change an entity; sealed batches stay sealed
+GovTypes == {"AddCreditType", "AddClassCreator", "RemoveClassCreator", "SetClassCreatorAllowlist",
+             "UpdateClassFee", "AddAllowedBridgeChain", "RemoveAllowedBridgeChain",
+             "UpdateBasketFee", "UpdateDateCriteria", "AddAllowedDenom", "RemoveAllowedDenom",
+             "GovSetFeeParams", "GovSendFromFeePool"}
+
+HasRole(pre, e) ==
+  LET m == e.m
+      S == e.signers
+  IN
+  CASE e.type \in GovTypes -> Gov \in S
+    [] e.type = "CreateClass" -> pre.allowlist => \E a \in S : a \in pre.creators
+    [] e.type = "CreateProject" ->
+         HasClassId(pre, m.class_id) /\ \E a \in S : IsIssuer(pre, ClassById(pre, m.class_id).key, a)
+    [] e.type = "CreateBatch" ->
+         HasProjectId(pre, m.project_id) /\
+         \E a \in S : IsIssuer(pre, ProjectById(pre, m.project_id).ck, a)
+    [] e.type = "SealBatch" ->
+         HasBatchDenom(pre, m.batch_denom) /\ BatchByDenom(pre, m.batch_denom).issuer \in S
+    [] e.type \in {"MintBatchCredits", "UpdateBatchMetadata"} ->
+         /\ HasBatchDenom(pre, m.batch_denom)
+         /\ BatchByDenom(pre, m.batch_denom).issuer \in S
+         /\ BatchByDenom(pre, m.batch_denom).open
+    [] e.type = "BridgeReceive" ->
+         /\ HasClassId(pre, m.class_id)
+         /\ LET c == ClassById(pre, m.class_id) IN
+            IF \E x \in pre.contracts : x.ck = c.key /\ x.contract = m.origin.contract
+            THEN LET x == CHOOSE y \in pre.contracts : y.ck = c.key /\ y.contract = m.origin.contract IN
+                 HasBatchKey(pre, x.bk) /\ BatchByKey(pre, x.bk).issuer \in S /\ BatchByKey(pre, x.bk).open
+            ELSE \E a \in S : IsIssuer(pre, c.key, a)
+    [] e.type \in {"UpdateClassAdmin", "UpdateClassIssuers", "UpdateClassMetadata"} ->
+         HasClassId(pre, m.class_id) /\ ClassById(pre, m.class_id).admin \in S
+    [] e.type \in {"UpdateProjectAdmin", "UpdateProjectMetadata"} ->
+         HasProjectId(pre, m.project_id) /\ ProjectById(pre, m.project_id).admin \in S
+    [] e.type = "UpdateCurator" ->
+         HasBasket(pre, m.denom) /\ BasketByDenom(pre, m.denom).curator \in S
+    [] e.type = "CancelSellOrder" ->
+         HasOrder(pre, m.id) /\ OrderById(pre, m.id).seller \in S
+    [] e.type = "UpdateSellOrders" ->
+         \A i \in DOMAIN m.updates :
+           HasOrder(pre, m.updates[i].id) /\ OrderById(pre, m.updates[i].id).seller \in S
+    [] e.type = "Unimplemented" -> FALSE
+    [] OTHER -> TRUE
+
+C08_Authorised_Step == ev'.ok => HasRole(st, ev')
+
+\* rows of table f not selected by P are identical before and after
+RowsSameExcept(f, P(_)) ==
+  /\ \A r \in st[f]  : ~P(r) => r \in st'[f]
+  /\ \A r \in st'[f] : ~P(r) => r \in st[f]
+
+\* the one row selected by P changes only in the fields of F
+RowOnlyFields(f, P(_), F) ==
+  \A r \in st[f] : P(r) =>
+    \E q \in st'[f] : P(q) /\ \A x \in DOMAIN r : x \notin F => q[x] = r[x]
+
+C08_Footprint_Step ==
+  ev'.ok =>
+  LET m == ev'.m
+      T == ev'.type
+  IN
+  CASE T = "UpdateClassAdmin" ->
+         /\ OnlyChanged({"classes"}) /\ RowsSameExcept("classes", LAMBDA r : r.id = m.class_id)
+         /\ RowOnlyFields("classes", LAMBDA r : r.id = m.class_id, {"admin"})
+    [] T = "UpdateClassMetadata" ->
+         /\ OnlyChanged({"classes"}) /\ RowsSameExcept("classes", LAMBDA r : r.id = m.class_id)
+         /\ RowOnlyFields("classes", LAMBDA r : r.id = m.class_id, {"meta"})
+    [] T = "UpdateClassIssuers" ->
+         /\ OnlyChanged({"issuers"})
+         /\ RowsSameExcept("issuers", LAMBDA r : r.ck = ClassById(st, m.class_id).key)
+    [] T = "UpdateProjectAdmin" ->
+         /\ OnlyChanged({"projects"}) /\ RowsSameExcept("projects", LAMBDA r : r.id = m.project_id)
+         /\ RowOnlyFields("projects", LAMBDA r : r.id = m.project_id, {"admin"})
+    [] T = "UpdateProjectMetadata" ->
+         /\ OnlyChanged({"projects"}) /\ RowsSameExcept("projects", LAMBDA r : r.id = m.project_id)
+         /\ RowOnlyFields("projects", LAMBDA r : r.id = m.project_id, {"meta"})
+    [] T = "UpdateBatchMetadata" ->
+         /\ OnlyChanged({"batches"}) /\ RowsSameExcept("batches", LAMBDA r : r.denom = m.batch_denom)
+         /\ RowOnlyFields("batches", LAMBDA r : r.denom = m.batch_denom, {"meta"})
+    [] T = "SealBatch" ->
+         /\ OnlyChanged({"batches"}) /\ RowsSameExcept("batches", LAMBDA r : r.denom = m.batch_denom)
+         /\ RowOnlyFields("batches", LAMBDA r : r.denom = m.batch_denom, {"open"})
+    [] T = "MintBatchCredits" ->
+         /\ OnlyChanged({"bal", "supply", "origintx"})
+         /\ RowsSameExcept("bal", LAMBDA r : r.bk = BatchByDenom(st, m.batch_denom).key)
+         /\ RowsSameExcept("supply", LAMBDA r : r.bk = BatchByDenom(st, m.batch_denom).key)
+    [] T = "CreateProject" -> OnlyChanged({"projects", "pseq", "seq"}) /\ st.projects \subseteq st'.projects
+    [] T = "CreateBatch" ->
+         /\ OnlyChanged({"batches", "bseq", "seq", "bal", "supply", "origintx", "contracts"})
+         /\ st.batches \subseteq st'.batches /\ st.bal \subseteq st'.bal
+         /\ st.supply \subseteq st'.supply /\ st.contracts \subseteq st'.contracts
+    [] T = "UpdateCurator" ->
+         /\ OnlyChanged({"baskets"}) /\ RowsSameExcept("baskets", LAMBDA r : r.denom = m.denom)
+         /\ RowOnlyFields("baskets", LAMBDA r : r.denom = m.denom, {"curator"})
+    [] T = "UpdateDateCriteria" ->
+         /\ OnlyChanged({"baskets"}) /\ RowsSameExcept("baskets", LAMBDA r : r.denom = m.denom)
+         /\ RowOnlyFields("baskets", LAMBDA r : r.denom = m.denom, {"crit"})
+    [] T = "UpdateBasketFee" -> OnlyChanged({"basketfee"})
+    [] T = "UpdateClassFee" -> OnlyChanged({"classfee"})
+    [] T = "SetClassCreatorAllowlist" -> OnlyChanged({"allowlist"})
+    [] T = "AddClassCreator" -> OnlyChanged({"creators"}) /\ st'.creators = st.creators \cup {m.creator}
+    [] T = "RemoveClassCreator" -> OnlyChanged({"creators"}) /\ st'.creators = st.creators \ {m.creator}
+    [] T = "AddCreditType" -> OnlyChanged({"ctypes"}) /\ st.ctypes \subseteq st'.ctypes
+                              /\ \A t \in st'.ctypes \ st.ctypes : t.abbr = m.abbr
+    [] T = "AddAllowedBridgeChain" -> OnlyChanged({"chains"}) /\ st'.chains = st.chains \cup {Lower(m.chain)}
+    [] T = "RemoveAllowedBridgeChain" -> OnlyChanged({"chains"}) /\ st'.chains = st.chains \ {Lower(m.chain)}
+    [] T = "AddAllowedDenom" -> OnlyChanged({"denoms"}) /\ st.denoms \subseteq st'.denoms
+                                /\ \A d \in st'.denoms \ st.denoms : d.bank = m.bank
+    [] T = "RemoveAllowedDenom" -> OnlyChanged({"denoms"})
+                                   /\ st'.denoms = {d \in st.denoms : d.bank # m.denom}
+    [] T = "GovSetFeeParams" -> OnlyChanged({"feeparams"})
+    [] T = "GovSendFromFeePool" ->
+         /\ OnlyChanged({"coins"})
+         /\ RowsSameExcept("coins", LAMBDA r : r.d = m.denom /\ r.a \in {ModFeePool, m.recipient})
+    [] T = "CancelSellOrder" ->
+         /\ OnlyChanged({"orders", "bal"})
+         /\ st'.orders = {o \in st.orders : o.id # m.id}
+         /\ RowsSameExcept("bal", LAMBDA r : r.a = OrderById(st, m.id).seller /\ r.bk = OrderById(st, m.id).bk)
+    [] T = "UpdateSellOrders" ->
+         /\ OnlyChanged({"orders", "bal", "markets", "seq"})
+         /\ RowsSameExcept("orders", LAMBDA o : \E i \in DOMAIN m.updates : m.updates[i].id = o.id)
+         /\ RowsSameExcept("bal", LAMBDA r : r.a \in ev'.signers)
+         /\ st.markets \subseteq st'.markets
+    [] OTHER -> TRUE
+
+C08_SealedStaysSealed_Step ==
+  \A b \in st.batches :
+    ~b.open =>
+      /\ \E q \in st'.batches : q.key = b.key /\ q.denom = b.denom /\ ~q.open /\ q.meta = b.meta
+      /\ IssuedOf(gh', b.denom) = IssuedOf(gh, b.denom)
+
+C08_Authorised_Prop        == [][C08_Authorised_Step]_vars
+C08_Footprint_Prop         == [][C08_Footprint_Step]_vars
+C08_SealedStaysSealed_Prop == [][C08_SealedStaysSealed_Step]_vars
+
+\* ================================================================== C13
+C13_AtMostOnce == ~gh.dup
+
+C13_ContractsUnique ==
+  \A x, y \in st.contracts :
+    ((x.ck = y.ck /\ x.contract = y.contract) \/ x.bk = y.bk) => x = y
+
+C13_AllowedSource_Step ==
+  EvIs("BridgeReceive") => Lower(ev'.m.origin.src) \in st.chains
+
+\* a binding never changes or disappears
+C13_BindingPermanent_Step == st.contracts \subseteq st'.contracts
+
+C13_ReceiveIntoBound_Step ==
+  EvIs("BridgeReceive") =>
+    LET m == ev'.m
+        c == ClassById(st, m.class_id)
+        bound == \E x \in st.contracts : x.ck = c.key /\ x.contract = m.origin.contract
+    IN /\ HasClassId(st, m.class_id)
+       /\ "batch_denom" \in DOMAIN ev'.resp
+       /\ IF bound
+          THEN LET x == CHOOSE y \in st.contracts : y.ck = c.key /\ y.contract = m.origin.contract
+                   b == BatchByKey(st, x.bk)
+               IN /\ ev'.resp.batch_denom = b.denom
+                  /\ IssuedOf(gh', b.denom) = IssuedOf(gh, b.denom) + m.amt
+                  /\ TotalSup(st', b.key) = TotalSup(st, b.key) + m.amt
+                  /\ BalOf(st', m.to, b.key).t = BalOf(st, m.to, b.key).t + m.amt
+                  /\ st'.batches = st.batches
+          ELSE /\ ~HasBatchDenom(st, ev'.resp.batch_denom)
+               /\ HasBatchDenom(st', ev'.resp.batch_denom)
+               /\ LET b == BatchByDenom(st', ev'.resp.batch_denom) IN
+                  /\ \E x \in st'.contracts : x.bk = b.key /\ x.ck = c.key /\ x.contract = m.origin.contract
+                  /\ TotalSup(st', b.key) = m.amt
+                  /\ BalOf(st', m.to, b.key).t = m.amt
+
+C13_BridgeOut_Step ==
+  EvIs("Bridge") =>
+    LET m == ev'.m IN
+    /\ Lower(m.target) \in st.chains
+    /\ "contracts" \in DOMAIN ev'.resp /\ Len(ev'.resp.contracts) = Len(m.credits)
+    /\ \A i \in DOMAIN m.credits :
+         /\ HasBatchDenom(st, m.credits[i].denom)
+         /\ HasContract(st, BatchByDenom(st, m.credits[i].denom).key)
+         /\ ev'.resp.contracts[i] = ContractOf(st, BatchByDenom(st, m.credits[i].denom).key)
+    /\ \A b \in st.batches :
+         LET q == SumOver({i \in DOMAIN m.credits : m.credits[i].denom = b.denom},
+                          LAMBDA i : m.credits[i].amt) IN
+         /\ SupplyOrZero(st', b.key).c = SupplyOrZero(st, b.key).c + q
+         /\ SupplyOrZero(st', b.key).t = SupplyOrZero(st, b.key).t - q
+         /\ SupplyOrZero(st', b.key).r = SupplyOrZero(st, b.key).r
+         /\ BalOf(st', m.owner, b.key).t = BalOf(st, m.owner, b.key).t - q
+    /\ OnlyChanged({"bal", "supply"})
+    /\ RowsSameExcept("bal", LAMBDA r : r.a = m.owner)
+
+C13_AllowedSource_Step_Prop == TRUE
+C13_AllowedSource_Prop    == [][C13_AllowedSource_Step]_vars
+C13_BindingPermanent_Prop == [][C13_BindingPermanent_Step]_vars
+C13_ReceiveIntoBound_Prop == [][C13_ReceiveIntoBound_Step]_vars
+C13_BridgeOut_Prop        == [][C13_BridgeOut_Step]_vars
+
+\* ================================================================== C14
+Unique(T, F(_)) == \A x, y \in T : F(x) = F(y) => x = y
+
+C14_Unique ==
+  /\ Unique(st.classes, LAMBDA r : r.id)   /\ Unique(st.classes, LAMBDA r : r.key)
+  /\ Unique(st.projects, LAMBDA r : r.id)  /\ Unique(st.projects, LAMBDA r : r.key)
+  /\ Unique(st.batches, LAMBDA r : r.denom) /\ Unique(st.batches, LAMBDA r : r.key)
+  /\ Unique(st.baskets, LAMBDA r : r.denom) /\ Unique(st.baskets, LAMBDA r : r.id)
+  /\ Unique(st.baskets, LAMBDA r : r.name)
+  /\ Unique(st.orders, LAMBDA r : r.id)    /\ Unique(st.markets, LAMBDA r : r.id)
+
+C14_References ==
+  /\ \A c \in st.classes : HasCreditType(st, c.ct)
+  /\ \A p \in st.projects : HasClassKey(st, p.ck)
+  /\ \A b \in st.batches : HasProjectKey(st, b.pk)
+  /\ \A i \in st.issuers : HasClassKey(st, i.ck)
+  /\ \A r \in st.bal : HasBatchKey(st, r.bk)
+  /\ \A r \in st.supply : HasBatchKey(st, r.bk)
+  /\ \A b \in st.batches : HasSupply(st, b.key)
+  /\ \A x \in st.contracts : HasBatchKey(st, x.bk) /\ HasClassKey(st, x.ck)
+  /\ \A x \in st.origintx : HasClassKey(st, x.ck)
+  /\ \A o \in st.orders : HasBatchKey(st, o.bk) /\ HasMarketId(st, o.mid)
+  /\ \A k \in st.markets : HasCreditType(st, k.ct)
+  /\ \A x \in st.bbal : HasBatchDenom(st, x.denom) /\ \E k \in st.baskets : k.id = x.bid
+  /\ \A x \in st.bclasses : HasClassId(st, x.cid) /\ \E k \in st.baskets : k.id = x.bid
+  /\ \A k \in st.baskets : HasCreditType(st, k.ct)
+
+\* every id has the documented form, embeds its parent's id, and carries a
+\* sequence number below the scope's next number
+C14_Format ==
+  /\ \A c \in st.classes :
+       \E n \in 1..(NextOf(st.cseq, "ct", c.ct) - 1) : c.id = ClassIdOf(c.ct, n)
+  /\ \A p \in st.projects :
+       HasClassKey(st, p.ck) /\
+       \E n \in 1..(NextOf(st.pseq, "ck", p.ck) - 1) : p.id = ProjectIdOf(ClassByKey(st, p.ck).id, n)
+  /\ \A b \in st.batches :
+       HasProjectKey(st, b.pk) /\
+       \E n \in 1..(NextOf(st.bseq, "pk", b.pk) - 1) :
+          b.denom = BatchDenomOf(ProjectByKey(st, b.pk).id, b.start, b.end, n)
+  /\ \A k \in st.baskets : k.denom = BasketDenomOf(k.ct, k.name)
+
+C14_Consecutive_Step ==
+  /\ EvIs("CreateClass") =>
+       LET n == NextOf(st.cseq, "ct", ev'.m.ct) IN
+       /\ ev'.resp = [class_id |-> ClassIdOf(ev'.m.ct, n)]
+       /\ NextOf(st'.cseq, "ct", ev'.m.ct) = n + 1
+       /\ ~HasClassId(st, ev'.resp.class_id) /\ HasClassId(st', ev'.resp.class_id)
+       /\ Cardinality(st'.classes) = Cardinality(st.classes) + 1
+  /\ EvIs("CreateProject") =>
+       LET ck == ClassById(st, ev'.m.class_id).key
+           n  == NextOf(st.pseq, "ck", ck) IN
+       /\ ev'.resp = [project_id |-> ProjectIdOf(ev'.m.class_id, n)]
+       /\ NextOf(st'.pseq, "ck", ck) = n + 1
+       /\ ~HasProjectId(st, ev'.resp.project_id) /\ HasProjectId(st', ev'.resp.project_id)
+       /\ Cardinality(st'.projects) = Cardinality(st.projects) + 1
+  /\ EvIs("CreateBatch") =>
+       LET pk == ProjectById(st, ev'.m.project_id).key
+           n  == NextOf(st.bseq, "pk", pk) IN
+       /\ ev'.resp = [batch_denom |-> BatchDenomOf(ev'.m.project_id, ev'.m.start, ev'.m.end, n)]
+       /\ NextOf(st'.bseq, "pk", pk) = n + 1
+       /\ ~HasBatchDenom(st, ev'.resp.batch_denom) /\ HasBatchDenom(st', ev'.resp.batch_denom)
+       /\ Cardinality(st'.batches) = Cardinality(st.batches) + 1
+  \* numbers are consumed only by successful creations, one at a time
+  /\ \A r \in st.cseq : NextOf(st'.cseq, "ct", r.ct) >= r.next
+  /\ \A r \in st.pseq : NextOf(st'.pseq, "ck", r.ck) >= r.next
+  /\ \A r \in st.bseq : NextOf(st'.bseq, "pk", r.pk) >= r.next
+  /\ (~ev'.ok) => /\ st'.cseq = st.cseq /\ st'.pseq = st.pseq /\ st'.bseq = st.bseq
+                  /\ st'.classes = st.classes /\ st'.projects = st.projects /\ st'.batches = st.batches
+  /\ (ev'.type \notin {"CreateClass", "CreateProject", "CreateBatch", "BridgeReceive"}) =>
+       st'.cseq = st.cseq /\ st'.pseq = st.pseq /\ st'.bseq = st.bseq
+
+C14_Consecutive_Prop == [][C14_Consecutive_Step]_vars
+
+\* ================================================================== C18
+\* creation fees are charged exactly
+FeeExact(fee, payer) ==
+  IF fee.set
+  THEN /\ ev'.m.fee.set /\ ev'.m.fee.denom = fee.denom /\ ev'.m.fee.amt >= fee.amt
+       /\ CoinBal(st, payer, fee.denom) >= fee.amt
+       /\ CoinBal(st', payer, fee.denom) = CoinBal(st, payer, fee.denom) - fee.amt
+       /\ CoinSupply(st', fee.denom) = CoinSupply(st, fee.denom) - fee.amt
+       /\ RowsSameExcept("coins", LAMBDA r : r.a = payer /\ r.d = fee.denom)
+       /\ RowsSameExcept("csupply", LAMBDA r : r.d = fee.denom)
+  ELSE st'.coins = st.coins /\ st'.csupply = st.csupply
+
+C18_FeeExact_Step ==
+  /\ EvIs("CreateClass")  => FeeExact(st.classfee, ev'.m.admin)
+  /\ EvIs("BasketCreate") => FeeExact(st.basketfee, ev'.m.curator)
+
+\* documented preconditions of user operations ("must succeed" direction);
+\* applied to events drawn from the specification's own message domain
+FeeOfferOK(s, fee, offered, payer) ==
+  fee.set => /\ offered.set /\ offered.denom = fee.denom /\ offered.amt >= fee.amt
+             /\ CoinBal(s, payer, fee.denom) >= fee.amt
+
+PreCreateClass(s, m) ==
+  /\ Len(m.issuers) > 0 /\ NoDup(m.issuers) /\ HasCreditType(s, m.ct)
+  /\ s.allowlist => m.admin \in s.creators
+  /\ m.fee.set => m.fee.amt > 0
+  /\ FeeOfferOK(s, s.classfee, m.fee, m.admin)
+
+PreBasketCreate(s, m) ==
+  /\ Len(m.classes) > 0 /\ NoDup(m.classes) /\ HasCreditType(s, m.ct)
+  /\ \A i \in DOMAIN m.classes : HasClassId(s, m.classes[i]) /\ ClassById(s, m.classes[i]).ct = m.ct
+  /\ ~\E k \in s.baskets : k.name = m.name \/ k.denom = BasketDenomOf(m.ct, m.name)
+  /\ m.fee.set => m.fee.amt > 0
+  /\ FeeOfferOK(s, s.basketfee, m.fee, m.curator)
+
+PreSell(s, m) ==
+  /\ Len(m.orders) = 1
+  /\ LET e == m.orders[1] IN
+     /\ e.qty > 0 /\ e.ask_amt > 0
+     /\ HasBatchDenom(s, e.denom) /\ BatchResolvable(s, BatchByDenom(s, e.denom))
+     /\ BalOf(s, m.seller, BatchByDenom(s, e.denom).key).t >= e.qty
+     /\ DenomAllowed(s, e.ask_denom)
+     /\ (e.exp.set => e.exp.t > s.now)
+
+\* one order, enough funds for the exact total (rounded up), max fee covers the fee
+PreBuyDirect(s, m) ==
+  /\ Len(m.orders) = 1
+  /\ LET o == m.orders[1] IN
+     /\ o.qty > 0 /\ HasOrder(s, o.id)
+     /\ LET so == OrderById(s, o.id)
+            bt == s.feeparams.buyer
+            N  == o.qty * s.unit.un * so.ask
+            D  == s.unit.ud
+        IN /\ so.seller # m.buyer
+           /\ (o.dar => so.dar)
+           /\ HasMarketId(s, so.mid) /\ o.bid_denom = MarketById(s, so.mid).denom
+           /\ o.bid_amt >= so.ask
+           /\ o.qty <= so.qty
+           /\ (~so.exp.set \/ so.exp.t > s.now)
+           /\ HasBatchKey(s, so.bk) /\ BatchResolvable(s, BatchByKey(s, so.bk))
+           /\ CoinBal(s, m.buyer, o.bid_denom) * D * RDen(bt) >= N * (RDen(bt) + RNum(bt))
+           /\ (IF o.maxfee.set THEN o.maxfee.denom = o.bid_denom /\ o.maxfee.amt * D * RDen(bt) >= N * RNum(bt)
+               ELSE RNum(bt) = 0)
+           /\ HasBal(s, so.seller, so.bk) /\ BalOf(s, so.seller, so.bk).e >= o.qty
+           /\ HasSupply(s, so.bk) /\ SupplyOf(s, so.bk).t >= o.qty
+
+PreOf(s, e) ==
+  CASE e.type = "CreateClass"  -> PreCreateClass(s, e.m)
+    [] e.type = "BasketCreate" -> PreBasketCreate(s, e.m)
+    [] e.type = "Sell"         -> PreSell(s, e.m)
+    [] e.type = "BuyDirect"    -> PreBuyDirect(s, e.m)
+    [] OTHER -> FALSE
+
+C18_NoFeatureDisabled_Step ==
+  (ev'.dom = "spec" /\ WellFormed(ev'.m) /\ PreOf(st, ev')) => ev'.ok
+
+C18_FeeExact_Prop          == [][C18_FeeExact_Step]_vars
+C18_NoFeatureDisabled_Prop == [][C18_NoFeatureDisabled_Step]_vars
 
 =============================================================================
